@@ -203,6 +203,23 @@ func runStreamCase(env *Env, c streamCase) {
 			got, ok := collect(source(batchesOf(c.Sizes, 0), c.Arrival).MakeISliceWorker(identityWorker, false, w).SortBatches(), false)
 			check(fmt.Sprintf("MakeISliceWorker(%d workers)+SortBatches", w), got, ok, want)
 		}
+	case "limitmemory":
+		got, ok := collect(source(in1, c.Arrival).LimitMemory(0.9), false)
+		sort.SliceStable(got, func(i, j int) bool { return got[i].O < got[j].O })
+		check("LimitMemory", got, ok, want)
+	case "copytee":
+		a, b := source(in1, c.Arrival).CopyTee()
+		var ga, gb []outBatch
+		var oka, okb bool
+		var wg sync.WaitGroup
+		wg.Add(2)
+		go func() { ga, oka = collect(a, false); wg.Done() }()
+		go func() { gb, okb = collect(b, false); wg.Done() }()
+		wg.Wait()
+		sort.SliceStable(ga, func(i, j int) bool { return ga[i].O < ga[j].O })
+		sort.SliceStable(gb, func(i, j int) bool { return gb[i].O < gb[j].O })
+		check("CopyTee(first output)", ga, oka, want)
+		check("CopyTee(second output)", gb, okb, want)
 	case "rebatch":
 		got, ok := collect(source(in1, c.Arrival).Rebatch(c.Size), false)
 		check("Rebatch", got, ok, want)
